@@ -246,7 +246,21 @@ var omCKeys = map[string]constraint.Type{"k1": constraint.EmailConstraintType, "
 	"k4": constraint.MinConstraintType, "k5": constraint.MaxConstraintType, "k6": constraint.RegexConstraintType}
 var omCVals = map[string]constraint.Constraint{"v1": constraint.NewEmail(), "v2": constraint.NewUri()}
 
+// omCKey maps a model key to a constraint type: the six real ones, beyond them arbitrary numbers (the container never
+// looks inside its keys)
+func omCKey(k string) constraint.Type {
+	if t, ok := omCKeys[k]; ok {
+		return t
+	}
+	var n int
+	fmt.Sscanf(k, "k%d", &n)
+	return constraint.Type(1000 + n)
+}
+
 func omCKeyName(t constraint.Type) string {
+	if t >= 1000 {
+		return fmt.Sprintf("k%d", int(t)-1000)
+	}
 	for k, v := range omCKeys {
 		if v == t {
 			return k
@@ -269,11 +283,11 @@ func (a constraintsAd) supports(string) bool { return true }
 func (a constraintsAd) apply(op omOp) {
 	switch op.Op {
 	case "set":
-		a.m.Set(omCKeys[op.K], omCVals[op.V])
+		a.m.Set(omCKey(op.K), omCVals[op.V])
 	case "update":
-		a.m.Update(omCKeys[op.K], func(constraint.Constraint) constraint.Constraint { return omCVals[op.V] })
+		a.m.Update(omCKey(op.K), func(constraint.Constraint) constraint.Constraint { return omCVals[op.V] })
 	case "delete":
-		a.m.Delete(omCKeys[op.K])
+		a.m.Delete(omCKey(op.K))
 	case "filter":
 		a.m.Filter(func(k constraint.Type, _ constraint.Constraint) bool { return inSet(op.Keys, omCKeyName(k)) })
 	case "map":
@@ -296,8 +310,8 @@ func (a constraintsAd) observe(keys []string) (omObs, []string) {
 		o.EachSafe = append(o.EachSafe, omCKeyName(k)+"="+omCValName(v))
 	})
 	for _, k := range keys {
-		o.Has[k] = a.m.Has(omCKeys[k])
-		if v, ok := a.m.Get(omCKeys[k]); ok {
+		o.Has[k] = a.m.Has(omCKey(k))
+		if v, ok := a.m.Get(omCKey(k)); ok {
 			o.Get[k] = omCValName(v)
 		}
 	}
@@ -646,6 +660,16 @@ func runC19(c *core.Ctx) error {
 	if err != nil {
 		return err
 	}
+	// and over seventy keys, 400 operations each: the containers grow past every size at which maps and slices reallocate
+	big, simb, err := tlc.SimulateBehaviours("OrderedMap", "OrderedMap_simbig.cfg", c.Pick(12, 120), 400, c.Seed)
+	if simb != nil {
+		simb.Cleanup()
+	}
+	if err != nil {
+		return err
+	}
+	c.Set("simulated_behaviours_70_keys", len(big))
+	behs = append(behs, big...)
 	for _, beh := range behs {
 		var cs omCase
 		for _, st := range beh[1:] {
